@@ -97,7 +97,7 @@ def main():
             "guard": "YACLIB_VERIF",
             "enable": "-DYACLIB_VERIF in CMAKE_CXX_FLAGS of the /verif fiber build variants (vf/build.py) and in the harness TU flags",
             "baseline_off_cmd": "cmake --build /repo/_build && ctest --test-dir /repo/_build -j8 --timeout 900",
-            "source_commits": ["9cac042"],
+            "source_commits": ["9cac042", "5873f77"],
             "add_only": True,
         },
         "engines": [
